@@ -39,10 +39,16 @@ def l2g(items):
     return out
 
 
+META = {(0,): "mv", (1,): "mf", (0, 1): "mvf", (0, 2): "mvg", (1, 2): "mfg"}   # metadata name -> the traits carrying it
+
+
 def legacy_text(items):
     out = ""
     for i, it in enumerate(items):
         names, s = it[0], it[1]
+        if len(it) > 3 and it[3]:
+            out += "+" + META[tuple(sorted(names))]      # '+metadata': every trait that has this metadata
+            continue
         out += NAME[names[0]] if len(names) == 1 else "[%s]" % ",".join(NAME[f] for f in names)
         if len(it) > 2 and it[2]:
             out += "?"
@@ -115,7 +121,12 @@ def gen_name(rnd, ctx):
             item.append(True)           # the '?' suffix: child?.value / child?:value
         items.append(item)
     last = rnd.choice([[0], [0], [0], [0], [1], [2], [0, 1], [1, 2], [2, 0]])      # final attribute(s): Int / Instance
-    items.append([last, "."])
+    if tuple(sorted(last)) in META and rnd.random() < 0.3:
+        # the final component is written '+metadata': the traits carrying that metadata (some with the value False)
+        items.append([last, ".", False, True])
+        ctx.count("name:final-metadata-wildcard")
+    else:
+        items.append([last, "."])
     return items
 
 
@@ -358,6 +369,7 @@ def gen_case(rnd, ctx, maxmut):
             ops.append(["Probe", o])
         ctx.count("op:Probe", len(used))
 
+    ctor = 0
     first = items[0]
     lazy = (not deferred and len(items) >= 2 and len(first[0]) == 1 and first[0][0] in (3, 4, 5)
             and not any(f in (3, 4, 5) for it in items[1:] for f in it[0]) and rnd.random() < 0.6)
@@ -369,6 +381,11 @@ def gen_case(rnd, ctx, maxmut):
         its = [[key, v] for key, v in zip(["a", "b"], vs)] if f0 == 4 else vs
         sh.new_cont(0, f0, [list(a) for a in its] if f0 == 4 else list(its))
         add(["RegLazy", 0, f0, its])
+        if rnd.random() < 0.4:
+            # the handlers are decorated methods (the decorator registers the legacy one with deferred=True) and the
+            # default is first read inside construction, in traits_init; 1 / 2: @observe(post_init=False / True)
+            ctor = rnd.choice([1, 2])
+            ctx.count("registration:decorators-default-read-in-traits_init")
         refresh()
         probes()
         add(["TouchItems", 0, f0, its])       # reading the trait now changes nothing
@@ -457,7 +474,7 @@ def gen_case(rnd, ctx, maxmut):
     if deferred:
         ctx.count("registration:deferred")
     reentrant = None
-    if rnd.random() < 0.3:
+    if not ctor and rnd.random() < 0.3:
         # a second legacy registration for the same name, removed by the first handler while a notification
         # round for the final attribute is in progress (armed at these Probe steps, fires at the first call)
         reg_at = next(i for i, o in enumerate(ops) if o[0] in ("Reg", "RegLazy"))
@@ -474,7 +491,7 @@ def gen_case(rnd, ctx, maxmut):
     if dictkind:
         ctx.count("pool:heterogeneous-kids")
     return dict(npool=npool, root=0, items=items, legacy=legacy_text(items), graphs=l2g(items), ops=ops,
-                deferred=deferred, falsy=falsy, reentrant=reentrant, eqcls=eqcls, dictkind=dictkind)
+                deferred=deferred, falsy=falsy, reentrant=reentrant, eqcls=eqcls, dictkind=dictkind, ctor=ctor)
 
 
 def corpus():
@@ -537,6 +554,20 @@ def corpus():
                             ["SetRef", 0, 1, 3, "eq"], ["SetRef", 3, 2, 4], ["Probe", 1], ["Probe", 2], ["Probe", 3],
                             ["Probe", 4], ["SetRef", 3, 2, 5, "eq"], ["Probe", 4], ["Probe", 5],
                             ["Unreg"], ["Probe", 3], ["Probe", 5]]))
+    # sixth wave, pinned: decorated handlers (deferred) and a container default with content first read INSIDE
+    # construction (traits_init); both handlers must follow the default's items
+    for f, ctor in ((3, 1), (4, 2), (5, 2)):
+        it = [[[f], "."], [[0], "."]]
+        its = [["a", 1], ["b", 2]] if f == 4 else [1, 2]
+        cs.append(dict(npool=18, root=0, items=it, legacy=legacy_text(it), graphs=l2g(it), ctor=ctor,
+                       ops=[["RegLazy", 0, f, its], ["Probe", 1], ["Probe", 2], ["TouchItems", 0, f, its], ["Probe", 1],
+                            ["Unreg"], ["Probe", 1], ["Probe", 2]]))
+    # a '+metadata' final component whose matching traits carry the value False (value) and True (g)
+    for it in ([[[1], ":"], [[0], ".", False, True]], [[[3], "."], [[0, 2], ".", False, True]]):
+        attach = ["SetRef", 0, 1, 1] if it[0][0] == [1] else ["SetCont", 0, 3, [1], False]
+        cs.append(dict(npool=18, root=0, items=it, legacy=legacy_text(it), graphs=l2g(it),
+                       ops=[attach, ["Reg"], ["Probe", 1], ["SetRef", 1, 2, 2], ["Probe", 1], ["Probe", 2],
+                            ["Unreg"], ["Probe", 1]]))
     return cs
 
 
